@@ -20,7 +20,6 @@ import (
 	"github.com/attestantio/dirk/services/api/grpc/interceptors"
 	"github.com/attestantio/dirk/services/checker"
 	staticchecker "github.com/attestantio/dirk/services/checker/static"
-	"github.com/attestantio/dirk/services/fetcher"
 	memfetcher "github.com/attestantio/dirk/services/fetcher/mem"
 	"github.com/attestantio/dirk/services/lister"
 	standardlister "github.com/attestantio/dirk/services/lister/standard"
@@ -142,7 +141,7 @@ func NewInstance(s *Sched, name string, cfg InstCfg) (*Instance, error) {
 		return fail(fmt.Errorf("checker: %w", err))
 	}
 	inst.Checker = &CheckerWrap{Service: checkerSvc, plan: cfg.Plan, pop: cfg.Pop}
-	var fetcherSvc fetcher.Service
+	var fetcherSvc *memfetcher.Service
 	if cfg.Pop.Shared && cfg.Pop.sharedFetcher != nil {
 		fetcherSvc = cfg.Pop.sharedFetcher
 	} else {
